@@ -96,6 +96,9 @@ def run(ctx):
                 # "supplied as bytes" includes instances of subclasses of bytes (a payload wrapper, numpy.bytes_)
                 import numpy
                 octets = OctetBlock(octets) if len(blocks) % 8 == 3 else numpy.bytes_(octets)
+            elif len(blocks) % 4 == 1:
+                # ... and the octets as the caller's receive buffer holds them: a bytearray, a memoryview slice
+                octets = bytearray(octets) if len(blocks) % 8 == 1 else memoryview(bytes(3) + octets)[3:]
             encb = T.encode(octets)
             held = bitarray(enc.tolist(), endian="little") if little else (frozenbitarray(enc) if frozen else enc.copy())
             dec = T.decode(held)
@@ -251,6 +254,26 @@ def run(ctx):
                         outcome = "raise:" + type(ex).__name__
                     aimed.append({"points": pts, "pos": pos, "state": st, "point": pt, "assumed": q, "outcome": outcome})
                     ctx.count(core.digest(["aimed", pts]))
+    # the last (49th) point: every state emits exactly one point for the flush tribit 000 the encoder appends; the seven other points
+    # of its row are points no encoder state can emit THERE, although the row's parity is right
+    for st in range(8):
+        for t_last in range(1, 8):
+            for _ in range(3):
+                tri = [rng.randrange(8) for _ in range(47)] + [st]
+                pts, cur = [], 0
+                for t_ in tri:
+                    pts.append(Tt[cur][t_])
+                    cur = t_
+                pts.append(Tt[st][t_last])
+                try:
+                    T.decode(stream(pts))
+                    outcome = "decoded"
+                except AssertionError:
+                    outcome = "rejected"
+                except Exception as ex:  # noqa
+                    outcome = "raise:" + type(ex).__name__
+                aimed.append({"points": pts, "pos": 48, "state": st, "point": pts[-1], "assumed": t_last, "outcome": outcome})
+                ctx.count(core.digest(["aimed", pts]))
     if len(aimed) < 500:
         raise core.MachineryError(f"only {len(aimed)} aimed streams built")
     data["aimed"] = aimed
